@@ -372,6 +372,12 @@ struct pnm_type_format_checker
                 pnm_tag
             >;
 
+        // ascii mono images are read as gray8_image_t (see is_allowed)
+        if( _type == pnm_image_type::mono_asc_t::value )
+        {
+            return is_supported_t::_asc_type == pnm_image_type::gray_asc_t::value;
+        }
+
         return is_supported_t::_asc_type == _type
             || is_supported_t::_bin_type == _type;
     }
